@@ -176,7 +176,8 @@ Definition wop_code (o : wop) : Z :=
 (* the query_value of a WhereClause *)
 Inductive qval :=
 | QPlain (v : val)                       (* QueryValue(value) *)
-| QTimeFn (which : Z) (ms : Z)           (* MinTimeUUID (0) / MaxTimeUUID (1); ms = to_database(datetime) *)
+| QTimeFn (which : Z) (local_ms off_ms : Z)  (* MinTimeUUID (0) / MaxTimeUUID (1) of a datetime given as wall-clock ms since 1970-01-01 in
+                                            its own zone + the zone's UTC offset (0 for naive datetimes) *)
 | QToken (vals : list Z) (ncols : nat).  (* Token(vals...) with set_columns(ncols columns) *)
 
 Inductive clause :=
@@ -212,8 +213,11 @@ Inductive fkind :=
 Record frag := { fk : fkind; ff : name; fps : list Z }.
 Definition mk (k : fkind) (f : name) (ps : list Z) : frag := {| fk := k; ff := f; fps := ps |}.
 
+(* TimeUUIDQueryFunction.to_database: (val - epoch_in_val's_zone).total_seconds() - utcoffset, in ms = the UTC instant *)
+Definition timefn_ms (local_ms off_ms : Z) : Z := local_ms - off_ms.
+
 Definition qval_size (q : qval) : Z :=
-  match q with QPlain _ => 1 | QTimeFn _ _ => 1 | QToken vals _ => Z.of_nat (length vals) end.
+  match q with QPlain _ => 1 | QTimeFn _ _ _ => 1 | QToken vals _ => Z.of_nat (length vals) end.
 
 Definition counter_prev (p : option Z) : Z := match p with Some x => x | None => 0 end.   (* previous or 0 *)
 
@@ -259,7 +263,7 @@ Fixpoint render_mapputs (f : name) (i : Z) (n : nat) : list frag :=
 Definition render_qval (f : name) (quote : bool) (op : wop) (i : Z) (q : qval) : frag :=
   match q with
   | QPlain _ => mk (KWhere quote (wop_code op) 0) f [i]
-  | QTimeFn w _ => mk (KWhere quote (wop_code op) (1 + w)) f [i]
+  | QTimeFn w _ _ => mk (KWhere quote (wop_code op) (1 + w)) f [i]
   | QToken vals _ => mk (KWhere quote (wop_code op) 3) f (zseq i (length vals))
   end.
 
@@ -306,10 +310,10 @@ Definition clause_ctx (i : Z) (c : clause) : list (Z * val) :=
   match c with
   | CWhere _ _ op q =>
     match op with
-    | OpIN => [(i, VInQ (match q with QPlain v => v | QTimeFn _ ms => VInt ms | QToken vals _ => VList vals end))]
+    | OpIN => [(i, VInQ (match q with QPlain v => v | QTimeFn _ l o => VInt (timefn_ms l o) | QToken vals _ => VList vals end))]
     | _ => match q with
            | QPlain v => [(i, v)]
-           | QTimeFn _ ms => [(i, VInt ms)]
+           | QTimeFn _ l o => [(i, VInt (timefn_ms l o))]
            | QToken vals n => zip_ids i (firstn n vals)
            end
     end
@@ -573,3 +577,16 @@ Fixpoint trace (s : stmt) (ops : list sop) : list (list (part * list frag) * lis
   | [] => []
   | o :: rest => let s' := sstep s o in observe s' :: trace s' rest
   end.
+
+(* ------------------------------------------------------------------ instance-level conditional update (DMLQuery.update with iff) *)
+(* delete_conditionals = [c for c in self._conditional if c.field not in updated_columns]  (both are db field names) *)
+Definition delete_conds (conds : list clause) (updated : list name) : list clause :=
+  filter (fun c => negb (zmem (clause_field c) updated)) conds.
+
+(* UpdateStatement(conditionals=conds); add_update per changed column (size-0 clauses dropped); add_where per key column;
+   then _delete_null_columns: DeleteStatement(conditionals=delete_conds); add_field per nulled column; add_where per key column *)
+Definition inst_update_stmts (keys conds assigns : list clause) (nulled : list name) : stmt * stmt :=
+  let asg := filter (fun c => negb (clause_size c =? 0)) assigns in
+  (build Update (map (Add PCond) conds ++ map (Add PAssign) asg ++ map (Add PWhere) keys),
+   build Delete (map (Add PCond) (delete_conds conds (map clause_field asg)) ++ map (Add PField) (map CDelField nulled)
+                 ++ map (Add PWhere) keys)).
